@@ -2,6 +2,9 @@ package oracle
 
 import (
 	"bytes"
+	"crypto/ecdsa"
+	"crypto/elliptic"
+	"crypto/rand"
 	"crypto/sha256"
 	"encoding/binary"
 	"fmt"
@@ -73,6 +76,29 @@ func sigVariants(orig []byte, seed int64, allPositions bool) []sigVariant {
 			copy(b[i:], h[:])
 		}
 	})
+	// well-formed ECDSA-Sig-Values of the same total length: SEQUENCE { INTEGER r, INTEGER s } with every
+	// split of the available bytes between r and s (a lint that decodes the value instead of measuring it
+	// answers differently on an unbalanced split). Only where the length admits the short forms.
+	if n >= 8 && n <= 2+127 {
+		body := n - 2
+		for a := 1; a <= body-5; a++ {
+			b := body - 4 - a
+			if b < 1 || a > 127 || b > 127 {
+				continue
+			}
+			a, b := a, b
+			mk(fmt.Sprintf("sigvalue-r%d-s%d", a, b), func(x []byte) {
+				x[0], x[1], x[2], x[3] = 0x30, byte(body), 0x02, byte(a)
+				for i := 0; i < a; i++ {
+					x[4+i] = 0x11
+				}
+				x[4+a], x[5+a] = 0x02, byte(b)
+				for i := 0; i < b; i++ {
+					x[6+a+i] = 0x22
+				}
+			})
+		}
+	}
 	step := 1
 	if !allPositions {
 		step = n/8 + 1
@@ -282,8 +308,102 @@ func c09Resigned(rep *core.Report) {
 			rep.Violate(d[0], d[1]+fmt.Sprintf(" [TLS-leaf template signed by two different %d-bit keys]", bits), map[string]interface{}{"op": "resigned", "bits": bits})
 		}
 	}
+	c09OwnKeySigned(rep)
 	_ = big.NewInt
 	_ = certgen.OIDCN
+}
+
+// c09OwnKeySigned: besides decoding it, the only thing a lint can do with a signature is to verify it
+// against a key it can see — the certificate's own. Templates whose issuer differs from the subject and
+// whose signature VERIFIES under their own public key (RSA and ECDSA P-256; as CA and as leaf; with
+// authorityKeyIdentifier = subjectKeyIdentifier, different, or absent) are compared with the same
+// to-be-signed bytes carrying a signature by another key, zeros, and a bit flip.
+func c09OwnKeySigned(rep *core.Report) {
+	ski := []byte{1, 2, 3, 4, 5, 6, 7, 8, 9, 10, 11, 12, 13, 14, 15, 16, 17, 18, 19, 20}
+	other := append([]byte{0xff}, ski[1:]...)
+	k1, k2 := keys.RSA(2048), keys.RSA(2047)
+	ecPriv := &ecdsa.PrivateKey{D: big.NewInt(1)}
+	ecPriv.Curve = elliptic.P256()
+	ecPriv.X, ecPriv.Y = elliptic.P256().ScalarBaseMult([]byte{1}) // certgen.ECSPKI() is the generator: d = 1
+	for _, alg := range []string{"rsa", "ecdsa"} {
+		for _, ca := range []bool{true, false} {
+			for kidMode := 0; kidMode < 3; kidMode++ {
+				s := tlsLeafSpec(date(2023, 6, 1), date(2024, 6, 1))
+				s.Issuer = certgen.Name(certgen.ATV{OID: certgen.OIDC, Tag: 19, Val: "US"}, certgen.ATV{OID: certgen.OIDO, Tag: 12, Val: "Issuer Org"}, certgen.ATV{OID: certgen.OIDCN, Tag: 12, Val: "Some Other Name"})
+				if ca {
+					s.Subject = certgen.Name(certgen.ATV{OID: certgen.OIDC, Tag: 19, Val: "US"}, certgen.ATV{OID: certgen.OIDO, Tag: 12, Val: "Subject Org"}, certgen.ATV{OID: certgen.OIDCN, Tag: 12, Val: "Subject CA"})
+					s.Exts = []*der.Node{certgen.KeyUsage(5, 6), certgen.BasicConstraints(true, true)}
+				}
+				switch kidMode {
+				case 0:
+					s.Exts = append(s.Exts, certgen.SKI(ski), certgen.AKI(ski))
+				case 1:
+					s.Exts = append(s.Exts, certgen.SKI(ski), certgen.AKI(other))
+				}
+				if alg == "rsa" {
+					s.SPKI = certgen.RSASPKI(k1.N, big.NewInt(int64(k1.E)))
+				} else {
+					s.SPKI = certgen.ECSPKI()
+					s.SigAlg = certgen.AlgID(certgen.OIDECDSASHA256, false)
+				}
+				t := s.Tree()
+				tbs := t.Children[0].Encode()
+				var own []byte
+				var alts [][]byte
+				if alg == "rsa" {
+					own = keys.SignSHA256RSA(k1, tbs)
+					o2 := keys.SignSHA256RSA(k2, tbs)
+					if len(o2) < len(own) {
+						o2 = append(make([]byte, len(own)-len(o2)), o2...)
+					}
+					alts = append(alts, o2)
+				} else {
+					h := sha256.Sum256(tbs)
+					sg, err := ecdsa.SignASN1(rand.Reader, ecPriv, h[:])
+					if err != nil {
+						rep.InternalError("ecdsa sign: %v", err)
+						continue
+					}
+					own = sg
+				}
+				alts = append(alts, make([]byte, len(own)))
+				flip := append([]byte(nil), own...)
+				flip[len(flip)-1] ^= 1
+				alts = append(alts, flip)
+				mk := func(sig []byte) *zl.Obj {
+					tt := t.Clone()
+					tt.Children[2] = der.Bits(sig, 0)
+					o, err := zl.Parse(seeds.Cert, tt.Encode())
+					if err != nil {
+						return nil
+					}
+					return o
+				}
+				a := mk(own)
+				if a == nil {
+					rep.Hole("own-key-signed template rejected by the parser")
+					continue
+				}
+				// the template really verifies under its own key (otherwise the state is vacuous)
+				if err := a.Cert.CheckSignature(a.Cert.SignatureAlgorithm, a.Cert.RawTBSCertificate, a.Cert.Signature); err != nil {
+					rep.Hole("own-key-signed %s template does not verify under its own key: %v", alg, err)
+				}
+				for _, alt := range alts {
+					b := mk(alt)
+					if b == nil {
+						continue
+					}
+					rep.Inc("states")
+					rep.Inc("validated")
+					rep.Inc("own_key_signed_templates")
+					for _, d := range c09Compare(a, b) {
+						rep.Violate(d[0], d[1]+fmt.Sprintf(" [template issuer≠subject, %s, ca=%v, key-id mode %d (0: AKI=SKI), signature valid under the certificate's own key vs. another value of the same length]", alg, ca, kidMode),
+							map[string]interface{}{"op": "own_key_signed", "alg": alg, "ca": ca, "kid": kidMode})
+					}
+				}
+			}
+		}
+	}
 }
 
 func replayC09(rp map[string]interface{}) (string, error) {
